@@ -453,6 +453,12 @@ func (w *world) branch(cond *Term) bool {
 // choose picks one of n options; guard(i) is the condition under which option
 // i applies (nil = unconditional). All feasible options are explored.
 func (w *world) choose(n int, guard func(i int) *Term) int {
+	return w.chooseLazy(n, guard, nil)
+}
+
+// chooseLazy is choose with an early stop: after option i has been examined,
+// stop(i) == true declares all later options infeasible.
+func (w *world) chooseLazy(n int, guard func(i int) *Term, stop func(i int) bool) int {
 	if w.summaryDepth > 0 {
 		panic(engineAbort{kind: abUnsupported, msg: "multi-way choice inside a summarised function"})
 	}
@@ -469,10 +475,16 @@ func (w *world) choose(n int, guard func(i int) *Term) int {
 	for i := 0; i < n; i++ {
 		g := guard(i)
 		if g != nil && g.isFalse() {
+			if stop != nil && stop(i) {
+				break
+			}
 			continue
 		}
 		if g != nil && !g.isTrue() {
 			if w.feasible(g) == rUnsat {
+				if stop != nil && stop(i) {
+					break
+				}
 				continue
 			}
 		}
@@ -481,6 +493,9 @@ func (w *world) choose(n int, guard func(i int) *Term) int {
 		} else {
 			alt := append(append([]int{}, w.decisions...), i)
 			w.ex.push(alt)
+		}
+		if stop != nil && stop(i) {
+			break
 		}
 	}
 	if first < 0 {
